@@ -39,7 +39,12 @@ use std::panic::{catch_unwind, AssertUnwindSafe};
 use std::sync::atomic::{AtomicI64, Ordering};
 use std::sync::{Arc, Mutex};
 
-pub const NAMES: [&str; 4] = ["a", "b", "c", "d"];
+/// Template names: an opaque string each - two spellings are two names.  The first four are observed
+/// after every step; the others are further spellings (leading `//`, trailing `/`, `..` segments, case,
+/// unicode NFC / NFD, ...) used by add / get / remove / loader.
+pub const NAMES: [&str; 12] =
+    ["a", "./a", "b", "/b", "//a", "a/", "b/../a", "A", "\u{e9}", "e\u{301}", "./b", ".//a"];
+pub const UNIVERSE: usize = 4;
 pub const REG_NAMES: [[&str; 4]; 3] = [["cf", "abs", "kf", "cf3"], ["ct", "odd", "kt", "ct3"], ["cg", "range", "site", "kw"]];
 
 pub fn src_text(x: i64) -> String {
@@ -210,9 +215,10 @@ pub fn loader_fn(l: i64, now: i64, n: i64) -> Result<Option<String>, Error> {
 
 #[derive(serde::Serialize)]
 pub struct Ctx {
+    // `data` is the first embedded Value of the conversion (value handle 1)
+    data: Value,
     x: Value,
     q: i64,
-    data: Value,
     #[serde(skip_serializing_if = "Option::is_none")]
     f: Option<Value>,
 }
@@ -223,7 +229,7 @@ pub fn ctx_of(q: i64, data: &Value) -> Serde<Ctx> {
 }
 /// ... with `f`: a value that escaped from an earlier render (a macro, a loop object, a namespace, a caller).
 pub fn ctx_f(q: i64, data: &Value, f: &Option<Value>) -> Serde<Ctx> {
-    Serde(Ctx { x: Value::from(vec![1, 2, 3]), q, data: data.clone(), f: f.clone() })
+    Serde(Ctx { data: data.clone(), x: Value::from_safe_string("<b>".into()), q, f: f.clone() })
 }
 
 /// Where escaped values are kept: `stash(value, kind)` stores only while a capture operation is running.
@@ -301,15 +307,25 @@ pub fn render_call(env: &Environment<'static>, name: &str, rc: i64, data: &Value
 /// A context that hands a Value to the serializer (so a value handle is registered) and then
 /// fails or panics.
 pub struct BadCtx(pub bool);
+fn secret() -> Value {
+    map_of(vec![(Value::from("secret"), Value::from("s3cr3t of another request"))])
+}
 impl Serialize for BadCtx {
     fn serialize<S: Serializer>(&self, s: S) -> Result<S::Ok, S::Error> {
         let mut st = s.serialize_struct("BadCtx", 2)?;
-        st.serialize_field("x", &Value::from(vec![1, 2, 3]))?;
+        st.serialize_field("x", &secret())?;
         if self.0 {
             panic!("user panic in Serialize");
         }
         Err(S::Error::custom("nope"))
     }
+}
+/// The documented way to get a context that cannot be converted: flattening a Value.
+#[derive(serde::Serialize)]
+pub struct FlattenCtx {
+    title: String,
+    #[serde(flatten)]
+    extra: Value,
 }
 
 pub fn enc(r: Result<String, Error>) -> (i64, i64) {
@@ -328,7 +344,7 @@ pub fn enc(r: Result<String, Error>) -> (i64, i64) {
 }
 
 pub fn adhoc_name(a: i64) -> &'static str {
-    if (0..4).contains(&a) {
+    if (0..12).contains(&a) {
         NAMES[a as usize]
     } else {
         "oneoff"
@@ -341,7 +357,7 @@ fn leak(s: String) -> &'static str {
 
 pub fn observe(env: &Environment<'static>, data: &Value, f: &Option<Value>, out: &mut Vec<String>) {
     let c = env.clone();
-    for n in NAMES {
+    for n in &NAMES[..UNIVERSE] {
         let (t, v) = catch_unwind(AssertUnwindSafe(|| enc(c.get_template(n).and_then(|t| t.render(ctx_f(0, data, f))))))
             .unwrap_or((4, 1));
         out.push(t.to_string());
@@ -424,7 +440,7 @@ impl World {
     }
 
     pub fn step(&mut self, op: i64, a: i64, b: i64) -> (i64, i64) {
-        let name = NAMES[a.rem_euclid(4) as usize];
+        let name = NAMES[a.rem_euclid(12) as usize];
         let unit = (2, 0);
         let add = |r: Result<(), Error>| match r {
             Ok(()) => (2, 0),
@@ -566,19 +582,27 @@ impl World {
                 });
                 unit
             }
-            15 => match self.cur.get_template(name) {
-                Err(e) => (1, err_code(e.kind())),
-                Ok(t) => {
-                    if b != 0 {
-                        match catch_unwind(AssertUnwindSafe(|| t.render(Serde(BadCtx(true))))) {
+            // a render whose Serde context fails to convert: b%4 = 0 a Serialize impl that errors after handing
+            // out a Value, 1 one that panics, 2 / 3 #[serde(flatten)] of a map / of a safe string; thread mode (b/4)%4
+            15 => {
+                let cur = &self.cur;
+                on_thread(b.div_euclid(4), move || match cur.get_template(name) {
+                    Err(e) => (1, err_code(e.kind())),
+                    Ok(t) => match b.rem_euclid(4) {
+                        1 => match catch_unwind(AssertUnwindSafe(|| t.render(Serde(BadCtx(true))))) {
                             Err(_) => (4, 0),
                             Ok(r) => enc(r),
-                        }
-                    } else {
-                        enc(t.render(Serde(BadCtx(false))))
-                    }
-                }
-            },
+                        },
+                        0 => enc(t.render(Serde(BadCtx(false)))),
+                        2 => enc(t.render(Serde(FlattenCtx { title: "Oops".into(), extra: secret() }))),
+                        _ => enc(t.render(Serde(FlattenCtx {
+                            title: "Oops".into(),
+                            extra: Value::from_safe_string("<i>".into()),
+                        }))),
+                    },
+                })
+                .unwrap_or((4, 1))
+            }
             _ => unit,
         }
     }
